@@ -55,6 +55,36 @@ Definition fexpr_spec (e : fexpr) (w : W) : option (resp T) :=
       then Some (resp_sum (map (fun s => fr_spec (fst s) (snd s) w) secs)) else None
   end.
 
+(* nested filter lists: the response of a cascade is the product of the responses of its
+   stages, of a parallel bank the sum of the responses of its branches, whatever the stages are *)
+Fixpoint tree_spec (t : ftree) (w : W) : option (resp T) :=
+  match t with
+  | TLin b a => if all_zero a then None else Some (fr_spec b a w)
+  | TCas l => match all_some (map (fun s => tree_spec s w) l) with
+              | Some (r :: rs) => Some (resp_prod (r :: rs))
+              | _ => None
+              end
+  | TPar l => match all_some (map (fun s => tree_spec s w) l) with
+              | Some (r :: rs) => Some (resp_sum (r :: rs))
+              | _ => None
+              end
+  end.
+
+(* the transfer function of a nested filter as a number ... *)
+Fixpoint tree_tf (t : ftree) (w : W) : T :=
+  match t with
+  | TLin b a => tsum b w / tsum a w
+  | TCas l => fold_right (cmul F) #1 (map (fun s => tree_tf s w) l)
+  | TPar l => fold_right (cadd F) #0 (map (fun s => tree_tf s w) l)
+  end.
+(* ... defined when no list is empty and no denominator vanishes at w *)
+Fixpoint tree_ok (t : ftree) (w : W) : Prop :=
+  match t with
+  | TLin b a => tsum a w <> #0
+  | TCas l => l <> [] /\ fold_right (fun s acc => tree_ok s w /\ acc) True l
+  | TPar l => l <> [] /\ fold_right (fun s acc => tree_ok s w /\ acc) True l
+  end.
+
 (* dft: the defining sum, divided by the block length in the normalised form *)
 Definition dft_spec (blk : list T) (freqs : list W) (normalize : bool) : option (list T) :=
   if normalize then
